@@ -262,3 +262,29 @@ def check_float_repr(ctx: Ctx, rule: str, printer: str):
         ctx.undecided(rule, key, "what _print_Float returns is not understood", fl.where())
     else:
         ctx.check(ft in ("{float(" + p0 + ")}", "{repr(float(" + p0 + "))}"), rule, key, "Float -> shortest round-trip repr", f"{printer} printer: a Float is printed as `{ft}`, not as str(float(value)) (digits would be lost or added)", fl.where())
+
+
+# class-level attributes of the sympy printers that a gotranx printer class may set, with what is checked elsewhere
+VETTED_CLASS_ATTRS = {"_kf": "function table (R01.h / R03.b / R14.a)", "_kc": "constant table (R01.h)", "printmethod": "dispatch hook name only", "language": "a label"}
+
+
+def check_class_attr_overrides(ctx: Ctx, rule: str):
+    """A class-level assignment in a gotranx printer *replaces* the attribute of the sympy base.  `reserved_words` is the
+    set of identifiers sympy renames (`lambda` -> `lambda_`): assigning a fresh set drops the language's keywords, and a
+    model quantity named like a keyword is then emitted as it is.  Every other attribute the base defines is reported as
+    undecided unless it is in the vetted table."""
+    M = model(ctx)
+    for pr, chain in M.chains.items():
+        base = M.sympy_base[pr]
+        for g in chain:
+            assigns = g.class_assigns()
+            for name, val in assigns.items():
+                if name.startswith("_print_") or not hasattr(base, name) or name in VETTED_CLASS_ATTRS:
+                    continue
+                key = f"{g.rel}::{g.name}::class-attribute::{name}"
+                if name == "reserved_words":
+                    keeps = any(isinstance(n, ast.Attribute) and n.attr == "reserved_words" for n in ast.walk(val))
+                    ctx.check(keeps, rule, key, "extends the inherited reserved words", f"{g.name}.reserved_words = {norm(val)[:80]} replaces the reserved words of {base.__name__} (the keywords of the target language) instead of extending them: a state, parameter or intermediate named like a keyword is no longer renamed and the generated module does not compile (or binds the keyword's meaning)", g.where(val))
+                else:
+                    ctx.undecided(rule, key, f"{g.name} overrides the class attribute `{name}` of {base.__name__}; its effect on what is printed is not judged", g.where(val))
+            ctx.ok(rule, f"{g.rel}::{g.name}::class-attributes", f"class-level attributes {sorted(assigns)} do not replace reserved_words", g.where(), nontrivial=False)
